@@ -195,6 +195,30 @@ def special_states(ctx, rng):
         run_case(ctx, ["special state + failing reconnect", "special:" + label], scen3, cause=label + "+failing reconnect")
 
 
+def many_later_errors(ctx, rng):
+    """One latched object, then 20..40 failing connect() calls that each try to record ANOTHER message
+    (different names that cannot be found, unopenable ports, silent devices): the first message stays."""
+    prefix = [{"m": "command", "a": ["SM,100,20,20"], "faults": [{"op": "read", "at": 0, "kind": "silence"}]},
+              {"m": "disconnect", "a": []}]
+    steps = list(prefix)
+    for i in range(rng.randint(20, 40)):
+        c = rng.randrange(4)
+        if c == 0:
+            steps.append({"m": "connect", "a": ["Plotter-%02d" % i], "ports": []})
+        elif c == 1:
+            steps.append({"m": "connect", "a": ["Nobody %d" % i],
+                          "ports": [("/dev/fake0", "EiBotBoard,Ada", "USB VID:PID=04D8:FD92 SER=Ada LOCATION=1")]})
+        elif c == 2:
+            steps.append({"m": "record_error", "a": ["direct message %d" % i]})
+        else:
+            steps.append({"m": "connect", "a": [], "ports": [("/dev/port%d" % i, "EiBotBoard", "USB VID:PID=04D8:FD92")],
+                          "open_fault": "SerialException"})
+        if rng.random() < 0.2:
+            steps += follower_steps(rng, rng.sample(FOLLOWERS, 2))
+    scen = {"board": {"version": "3.0.2"}, "setup": "attach", "steps": steps, "expect_setup_failure": True}
+    run_case(ctx, ["many different later errors on one latched object"], scen, cause="many later errors")
+
+
 def two_objects(ctx, rng):
     """Two connection objects alive at once: latching one must not silence or latch the other, and
     traffic on the healthy one must not revive the latched one (no state shared through the class)."""
@@ -277,6 +301,9 @@ def run(ctx):
         history(ctx, rng)
     for _ in range(ctx.budget(1500, 10000)):
         two_objects(ctx, rng)
+    for _ in range(ctx.budget(150, 1500)):
+        many_later_errors(ctx, rng)
+    ctx.need("many different later errors on one latched object", 100)
     causes = ctx.extra.pop("_causes", set())
     pairs = ctx.extra.pop("_pairs", set())
     transitions = ctx.extra.pop("_transitions", set())
